@@ -12,7 +12,7 @@ func init() {
 	register(&PropDef{
 		ID:          "C18",
 		Level:       "other",
-		Explanation: "Byte fidelity and shell semantics are trusted; decided are merge order, wiring, isolation and the reserved name: ORDER — the environment handed to CompileTask is runnerEnv.Merge(contextEnv).With(\"TASK_NAME\", task name).Merge(taskEnv) and the variables are runnerVars.Merge(taskVars); in the loaded upstream source Merge applies the argument after the receiver (argument wins) and With merges then sets; in the executor the process environment (os.Environ at construction) precedes the job environment in the list given to expand.ListEnviron (later entries win) and the script is rendered with the job's own variables; WIRING — runner env ← the job's Env (task-runner factory), task env ← the task definition's Env, executor base ← os.Environ(); PER JOB — initScheduler creates one task runner and one scheduler per call, the per-stage variable container is created inside the stage loop, and the module has no package-level variable holding a container, runner or scheduler; RESERVED NAME — every Set of a job-supplied variable name is reachable only over the `name != reserved` edge whose other edge returns an error, and the reserved variable is set from the job's own id. EXEC ENV — the environment list handed to started processes appends name=value exactly for exported string variables and always continues the iteration.",
+		Explanation: "Byte fidelity and shell semantics are trusted; decided are merge order, wiring, isolation and the reserved name: ORDER — the environment handed to CompileTask is runnerEnv.Merge(contextEnv).With(\"TASK_NAME\", task name).Merge(taskEnv) and the variables are runnerVars.Merge(taskVars); in the loaded upstream source Merge applies the argument after the receiver (argument wins) and With merges then sets; in the executor the process environment (os.Environ at construction) precedes the job environment in the list given to expand.ListEnviron (later entries win) and the script is rendered with the job's own variables; WIRING — runner env ← the job's Env (task-runner factory), task env ← the task definition's Env, executor base ← os.Environ(); PER JOB — initScheduler creates one task runner and one scheduler per call, the per-stage variable container is created inside the stage loop, and the module has no package-level variable holding a container, runner or scheduler; RESERVED NAME — every Set of a job-supplied variable name is reachable only over the `name != reserved` edge whose other edge returns an error, and the reserved variable is set from the job's own id. EXEC ENV — the environment list handed to started processes appends name=value exactly for exported string variables and always continues the iteration. STAGE VARIABLES WIN — where the scheduler merges a stage's variables (which hold the job-identity variable) into Task.Variables they are the argument of Merge (the argument wins): an env entry of the task definition cannot replace the job id.",
 		Trusted:     []string{"mvdan/sh expand.ListEnviron: later entries override earlier ones", "upstream utils.ConvertEnv / RenderString", "exec passes the environment byte-for-byte"},
 		NotDecided:  []string{"byte fidelity of values", "shell quoting semantics"},
 		Check:       checkC18,
